@@ -344,3 +344,241 @@ func c15CaseEdges(g *an.Graph, o types.Object) an.Set {
 	}
 	return out
 }
+
+// ---------------------------------------------------------------------------
+// parameter roles, independent of the parameter order
+//
+// The issue key, the voter and the vote of setVote / getVote / GetVote /
+// loadVoteResult / validateForVote are not found by their argument position
+// but by where the parameter ends up: in the issue or the voter position of a
+// storage-key constructor of types/dbkey (directly, through locals assigned
+// once, through conversions, or through another function of the two governance
+// packages whose parameters are classified the same way), in a field of a
+// composite literal, or - for the record itself - by its type.
+
+// c15Sink describes where a value of a given role ends up.
+type c15Sink struct {
+	id    string
+	calls map[string]int // callee FuncName -> argument index that has the role
+	field *types.Var     // or: the value of this field in a keyed composite literal
+}
+
+func c15IssueSink() *c15Sink {
+	return &c15Sink{id: "issue", calls: map[string]int{"types/dbkey.SystemVote": 0, "types/dbkey.SystemVoteSort": 0, "types/dbkey.SystemVoteTotal": 0}}
+}
+
+func c15VoterSink() *c15Sink {
+	return &c15Sink{id: "voter", calls: map[string]int{"types/dbkey.SystemVote": 1}}
+}
+
+// c15Unconv strips parentheses and type conversions.
+func c15Unconv(info *types.Info, x ast.Expr) ast.Expr {
+	for {
+		x = ast.Unparen(x)
+		call, ok := x.(*ast.CallExpr)
+		if !ok || len(call.Args) != 1 {
+			return x
+		}
+		if tv, ok := info.Types[call.Fun]; !ok || !tv.IsType() {
+			return x
+		}
+		x = call.Args[0]
+	}
+}
+
+type c15SinkKey struct {
+	f    *an.Func
+	sink string
+}
+
+var c15SinkMemo = map[c15SinkKey]map[int]bool{}
+
+// paramsReaching: the indices of the parameters of the declared function f
+// whose value reaches the sink, in f itself or in a function of the governance
+// packages that f passes it to.
+func (e *c15Env) paramsReaching(f *an.Func, sink *c15Sink) map[int]bool {
+	return e.paramsReachingD(f, sink, map[*an.Func]bool{})
+}
+
+func (e *c15Env) paramsReachingD(f *an.Func, sink *c15Sink, busy map[*an.Func]bool) map[int]bool {
+	out := map[int]bool{}
+	if f == nil {
+		return out
+	}
+	f = f.TopDecl()
+	if f == nil || f.Body == nil || f.Obj == nil || busy[f] || len(busy) > 8 {
+		return out
+	}
+	mk := c15SinkKey{f, sink.id}
+	if sink.field != nil {
+		mk.sink += "/" + sink.field.Name()
+	}
+	if m, ok := c15SinkMemo[mk]; ok {
+		return m
+	}
+	busy[f] = true
+	defer delete(busy, f)
+	r := c15ResolverOf(f)
+	info := r.info
+	take := func(x ast.Expr) {
+		v := r.Resolve(c15Unconv(info, x))
+		for i := 0; i < 4 && v.Expr != nil && v.Call != nil; i++ {
+			// a conversion of a local: []byte(name)
+			y := c15Unconv(info, v.Expr)
+			if y == ast.Unparen(v.Expr) {
+				break
+			}
+			v = r.Resolve(y)
+		}
+		if pv, ok := v.Obj.(*types.Var); ok {
+			if idx := c15ParamIdx(f, pv); idx >= 0 {
+				out[idx] = true
+			}
+		}
+	}
+	ast.Inspect(f.Body, func(n ast.Node) bool {
+		switch y := n.(type) {
+		case *ast.CompositeLit:
+			if sink.field == nil {
+				return true
+			}
+			var st *types.Struct
+			if tv, ok := info.Types[y]; ok && tv.Type != nil {
+				t := tv.Type
+				if pt, isP := t.Underlying().(*types.Pointer); isP {
+					t = pt.Elem()
+				}
+				st, _ = t.Underlying().(*types.Struct)
+			}
+			for i, el := range y.Elts {
+				if kv, ok := el.(*ast.KeyValueExpr); ok {
+					if id, ok := kv.Key.(*ast.Ident); ok && info.Uses[id] == sink.field {
+						take(kv.Value)
+					}
+				} else if st != nil && i < st.NumFields() && st.Field(i) == sink.field {
+					take(el) // positional literal
+				}
+			}
+		case *ast.CallExpr:
+			fn := an.Callee(info, y)
+			if fn == nil {
+				return true
+			}
+			if idx, ok := sink.calls[an.FuncName(fn)]; ok {
+				if idx < len(y.Args) {
+					take(y.Args[idx])
+				}
+				return true
+			}
+			cf := e.p.FuncOf(fn)
+			if cf == nil || cf.Body == nil || (cf.Pkg != e.sys && cf.Pkg != e.nm) {
+				return true
+			}
+			sig, _ := fn.Type().(*types.Signature)
+			if sig == nil || sig.Variadic() || y.Ellipsis.IsValid() {
+				return true
+			}
+			for idx := range e.paramsReachingD(cf, sink, busy) {
+				if idx < len(y.Args) {
+					take(y.Args[idx])
+				}
+			}
+		}
+		return true
+	})
+	if len(busy) == 1 {
+		c15SinkMemo[mk] = out // only complete (non-truncated) results are remembered
+	}
+	return out
+}
+
+func c15ParamIdx(f *an.Func, v *types.Var) int {
+	if f == nil || f.Obj == nil {
+		return -1
+	}
+	sig := f.Obj.Type().(*types.Signature)
+	for i := 0; i < sig.Params().Len(); i++ {
+		if sig.Params().At(i) == v {
+			return i
+		}
+	}
+	return -1
+}
+
+// roleParam: the one parameter of the function that reaches the sink, or -1
+// with the reason (none, or several: the roles of the parameters are mixed up
+// inside the accessor).
+func (e *c15Env) roleParam(fn string, sink *c15Sink) (int, string) {
+	f := e.p.Func(fn)
+	if f == nil {
+		return -1, fn + " not found"
+	}
+	m := e.paramsReaching(f, sink)
+	if len(m) != 1 {
+		return -1, itoa(len(m)) + " parameters of " + fn + " reach the " + sink.id + " position of the storage key"
+	}
+	for i := range m {
+		return i, ""
+	}
+	return -1, ""
+}
+
+// keyArgs returns the issue-key and voter arguments of a call of an
+// accessor of the vote records (setVote, getVote, GetVote, validateForVote),
+// by the roles of the callee's parameters.  nil when the role is not carried
+// by exactly one parameter (or by the same parameter as the other role).
+func (e *c15Env) keyArgs(s an.Site) (issue, voter ast.Expr) {
+	if s.Fn == nil || s.Call == nil || s.Call.Ellipsis.IsValid() {
+		return nil, nil
+	}
+	name := an.FuncName(s.Fn)
+	ii, _ := e.roleParam(name, c15IssueSink())
+	vi, _ := e.roleParam(name, c15VoterSink())
+	if ii >= 0 && ii == vi {
+		return nil, nil
+	}
+	if ii >= 0 && ii < len(s.Call.Args) {
+		issue = s.Call.Args[ii]
+	}
+	if vi >= 0 && vi < len(s.Call.Args) {
+		voter = s.Call.Args[vi]
+	}
+	return
+}
+
+// c15TypedArg returns the argument of the call that is passed to the only
+// parameter of the callee whose type satisfies pred (nil: none or several).
+func c15TypedArg(fn *types.Func, call *ast.CallExpr, pred func(types.Type) bool) ast.Expr {
+	if fn == nil || call == nil || call.Ellipsis.IsValid() {
+		return nil
+	}
+	sig, _ := fn.Type().(*types.Signature)
+	if sig == nil || sig.Variadic() || sig.Params().Len() != len(call.Args) {
+		return nil
+	}
+	idx := -1
+	for i := 0; i < sig.Params().Len(); i++ {
+		if pred(sig.Params().At(i).Type()) {
+			if idx >= 0 {
+				return nil
+			}
+			idx = i
+		}
+	}
+	if idx < 0 {
+		return nil
+	}
+	return call.Args[idx]
+}
+
+// c15IsPtrTo: *pkg.Name with pkg given as full import path.
+func c15IsPtrTo(path, name string) func(types.Type) bool {
+	return func(t types.Type) bool {
+		pt, ok := t.(*types.Pointer)
+		if !ok {
+			return false
+		}
+		nt, ok := pt.Elem().(*types.Named)
+		return ok && nt.Obj().Pkg() != nil && nt.Obj().Pkg().Path() == path && nt.Obj().Name() == name
+	}
+}
